@@ -43,6 +43,8 @@ class VSock:
         self.net = net
         VSock._n += 1
         self.serial = VSock._n
+        self.fd = net.alloc_fd()  # like the OS: the lowest free descriptor number, re-used after close
+        self.segs: List[int] = []  # sizes of the writes that filled rx (a read without MSG_WAITALL stops at a segment end)
         self.hid = hid if hid is not None else net.next_hid()
         self.rx = bytearray()
         self.peer_sock: Optional["VSock"] = None
@@ -70,7 +72,7 @@ class VSock:
         return f"<VSock {self.role}#{self.hid}{' closed' if self.closed else ''}>"
 
     def fileno(self):
-        return -1 if self.closed else 1000 + self.serial
+        return -1 if self.closed else self.fd
 
     # setup ----------------------------------------------------------------------------------
     def bind(self, addr):
@@ -131,17 +133,28 @@ class VSock:
         self.net.block(self, need)
 
     # I/O ------------------------------------------------------------------------------------
-    def _recv(self, n: int) -> bytes:
+    def _take(self, k: int) -> bytes:
+        out = bytes(self.rx[:k])
+        del self.rx[:k]
+        while k and self.segs:
+            if self.segs[0] <= k:
+                k -= self.segs.pop(0)
+            else:
+                self.segs[0] -= k
+                k = 0
+        return out
+
+    def _recv(self, n: int, waitall: bool = True) -> bytes:
         self._chk()
         if n == 0:
             return b""
-        while len(self.rx) < n and self.peer == "open" and not self.err:
+        if not waitall and self.rx:
+            # without MSG_WAITALL a read returns what has arrived: at most the first pending segment
+            return self._take(min(n, self.segs[0] if self.segs else len(self.rx)))
+        while len(self.rx) < (n if waitall else 1) and self.peer == "open" and not self.err:
             self._block(n)
         if self.rx:
-            k = min(n, len(self.rx))
-            out = bytes(self.rx[:k])
-            del self.rx[:k]
-            return out
+            return self._take(min(n, len(self.rx)))
         if self.err:
             self.err = False
             self.broken = True
@@ -151,7 +164,7 @@ class VSock:
     def recv(self, n, flags=0):
         if n < 0:
             raise ValueError("negative buffersize in recv")
-        return self._recv(n)
+        return self._recv(n, bool(flags & _rs.MSG_WAITALL))
 
     def recv_into(self, buf, n=0, flags=0):
         mv = memoryview(buf).cast("B")
@@ -162,7 +175,7 @@ class VSock:
         elif n > len(mv):
             raise ValueError("buffer too small for requested bytes")
         self._chk()
-        data = self._recv(n)
+        data = self._recv(n, bool(flags & _rs.MSG_WAITALL))
         mv[: len(data)] = data
         return len(data)
 
@@ -197,6 +210,8 @@ class VSock:
         if p is None:
             raise OSError(errno.ENOTCONN, "Transport endpoint is not connected")
         p.rx += b
+        if b:
+            p.segs.append(len(b))
         if self.keep_sent:
             self.sent_log.append(b)
         self.net.on_send(self, b, delivered=True)
@@ -210,6 +225,7 @@ class VSock:
         if self.closed:
             return
         self.closed = True
+        self.net.free_fd(self.fd)
         if self.listening:
             self.net.bound.pop(self.addr[1], None)
             return
@@ -226,6 +242,7 @@ class VSock:
         if self.closed:
             return
         self.closed = True
+        self.net.free_fd(self.fd)
         p = self.peer_sock
         if p is not None and p.peer == "open":
             p.peer = "rst"
@@ -278,6 +295,7 @@ class VNet:
         self.fin_grace = fin_grace
         self._hid = 100
         self.accept_hids: List[int] = []
+        self.fds: set = set()
         self.mgr_clock = VClock()
         self.cli_clock = VClock()
         self.mgr_thread: Optional[threading.Thread] = None
@@ -289,6 +307,16 @@ class VNet:
         self.pre_send_observer: Optional[Callable] = None
         self.connect_observer: Optional[Callable] = None
         self.cli_nonwritable = False
+
+    def alloc_fd(self) -> int:
+        fd = 3
+        while fd in self.fds:
+            fd += 1
+        self.fds.add(fd)
+        return fd
+
+    def free_fd(self, fd: int):
+        self.fds.discard(fd)
 
     def next_hid(self):
         self._hid += 1
@@ -508,6 +536,8 @@ def _do(s, op, arg, real):
             return "ok"
         if op == "recv":
             return len(s.recv(arg, _rs.MSG_WAITALL))
+        if op == "recvnw":
+            return len(s.recv(arg))
         if op == "recvinto":
             buf = bytearray(arg[0])
             return s.recv_into(buf, arg[1], _rs.MSG_WAITALL)
@@ -559,6 +589,7 @@ SCENARIOS = {
     "data, fin, send, drain": [("A", "send", b"abc"), ("A", "close"), ("B", "send", b"x"), ("B", "recv", 3), ("B", "recv", 3), ("B", "send", b"y")],
     "partial+fin x2": [("A", "send", b"ab"), ("A", "close"), ("B", "recv", 1), ("B", "recv", 4), ("B", "recv", 4)],
     "partial+rst x2": [("A", "send", b"ab"), ("A", "rst"), ("B", "recv", 1), ("B", "recv", 4), ("B", "recv", 4), ("B", "recv", 4)],
+    "no waitall": [("A", "send", b"abc"), ("B", "recvnw", 5), ("A", "send", b"de"), ("A", "close"), ("B", "recvnw", 5), ("B", "recvnw", 5)],
     "idle": [("B", "sel"), ("A", "send", b"a"), ("B", "sel"), ("B", "recv", 1), ("B", "sel")],
     "both close": [("A", "close"), ("B", "close"), ("B", "send", b"x")],
     "data both ways then fin": [("A", "send", b"ab"), ("B", "send", b"cd"), ("A", "recv", 2), ("A", "close"), ("B", "recv", 2), ("B", "recv", 2), ("B", "send", b"e"), ("B", "send", b"f")],
